@@ -110,6 +110,29 @@ CHECKS.update({
   note=SRV_NOTE + " The step from `every appended route is IPv4` to `every configured route is IPv4` (staticroute) is not machine-checked. Inductive plugin invariants are assumed to hold for zero-valued globals.", technique="contract-based deductive verification: setup postconditions (plugin invariants) + handler preconditions + write-frame scan", ref="DESIGN.md section 7 (C19)"),
 })
 
+CHECKS.update({
+ "C02": dict(
+  text=("Deductive proof on the real rangeplugin.(*PluginState).Handler4, for every request and every lease table satisfying the state invariant: a client that already has a binding is answered with exactly that address and the table entry is untouched "
+        "(no binding is ever changed or removed: stickiness); an unknown client is bound to an address obtained from exactly one successful Allocate call of this invocation; when Allocate fails the handler returns (nil, stop), changes no binding and consumes nothing, and "
+        "this happens only for clients without a binding; known clients consume no allocator block; the lease-time option is set; the handler leaves the plugin mutex released and preserves the state invariant. Every access to the table happens with the mutex held (lock obligations)."),
+  note=SRV_NOTE + (" NOT proved here: that offered addresses lie in the range and that no address is bound to two clients - these follow from the allocator contracts C04/C05 together with the invariant `bound addresses = outstanding blocks`, "
+        "which is not machine-checked (the Allocator interface contract used by the plugin has no abstract view); restarts (setupRange re-marking loop) and the database are not covered; HardwareAddr.String is an uninterpreted injective-by-assumption function of the address value; time arithmetic is uninterpreted."),
+  technique="contract-based deductive verification: postconditions over the whole lease map (quantified), state invariant, lock obligations", ref="DESIGN.md section 7 (C02)"),
+ "C03": dict(
+  text=("Deductive check of the one obligation of C03 that contracts on /repo code can express: every row the handler writes must be loadable by loadRecords, i.e. net.ParseMAC accepts the stored text of the hardware address "
+        "(precondition of saveIPAddress, generated at both call sites in Handler4, using source-derived contracts of HardwareAddr.String and ParseMAC), plus safety of the storage functions. This obligation is REFUTED on the pinned tree for every "
+        "hardware-address length other than 6, 8 and 20 (replayed: restart fails) and is listed as a known finding; outside that input class it is proved. The round trip through sqlite itself is not decided."),
+  note=SRV_NOTE + " sqlite (cgo) is outside the verifier: database/sql calls are assumed not to touch Go memory; what the database stores and returns (column affinity, atomicity, crash points inside a statement) is not modelled; no bounded stand-in is run in this check.",
+  technique="contract-based deductive verification: precondition at call sites; known-finding carve-out re-proved", ref="DESIGN.md section 7 (C03)"),
+ "C10": dict(
+  text=("Deductive proof on the real file plugin: the loaders return a fresh table whose every address is of the instance's family, or an error (quantified map invariants over the parsing loops); loadFromFile is all-or-nothing "
+        "(error => the table pointer in force is unchanged; success => it is replaced as a whole by the freshly loaded table, under the write lock); Handler4 answers a listed hardware address with exactly the listed address and stops, and leaves the response alone otherwise; "
+        "Handler6 adds nothing when no IA_NA was requested; handlers never modify the table; every access to the table is under recLock and no exit leaves it held. `Each instance serves from its own file` is stated as a stability obligation "
+        "(the other protocol's setup must preserve this instance's table invariant): REFUTED on the pinned tree (single shared table; replayed) and listed as two known findings."),
+  note=SRV_NOTE + " Not decided: that the table equals the file line by line (os.ReadFile, bytes.Split, strings.Fields, ParseMAC, ParseIP are uninterpreted - only the per-line family check and last-wins map update are covered), and `eventually` after an update (liveness through fsnotify).",
+  technique="contract-based deductive verification: loop invariants over maps, postconditions, lock obligations, plugin-invariant stability obligations", ref="DESIGN.md section 7 (C10)"),
+})
+
 NOT_YET = {}
 
 def main():
